@@ -143,6 +143,10 @@ func IsValidINITBallotFact(fact INITBallotFact) error {
 				return nil
 			}
 
+			if fact.PreviousBlock() == nil {
+				return util.ErrInvalid.Errorf("empty previous block")
+			}
+
 			return fact.PreviousBlock().IsValid(b)
 		}),
 		fact.Proposal(),
